@@ -149,7 +149,7 @@ let run_script (toks : string list) : string =
          end
      | ["X"; "eof"] -> if running () then apply (DrvEnd (if !partial then EndedErr else EndedOk))
      | ["X"; "garbage"] | ["X"; "rderr"] -> if running () then apply (DrvEnd EndedErr)
-     | ["X"; "wrerr"] -> wr_armed := true
+     | ["X"; "wrerr"] | ["X"; "wrerr"; _] -> wr_armed := true      (* with a byte budget: the next request is cut short - for the model the same: it is not sent *)
      | ["H"] -> main_dropped := true
      | ["T"; _; _] when !main_dropped -> ()      (* the hook is reached through the caller's own handle *)
      | ["T"; l; ids] ->      (* hook verif_set_id_table: positions the allocator (simulates a counter that has come round) *)
